@@ -22,6 +22,10 @@ Variable use   : G -> uop -> ostate -> ostate * result.
 Variables (clean : ostate -> Prop) (sim : ostate -> ostate -> Prop).
 Hypothesis laws : pool_laws fresh reset init use clean sim.
 
+Lemma L_use : forall g f o o', sim o o' ->
+  sim (fst (use g f o)) (fst (use g f o')) /\ snd (use g f o) = snd (use g f o').
+Proof. destruct laws; auto. Qed.
+
 Notation act := (action input uop G).
 Notation gstate := (gst ostate input uop result G).
 Notation stp := (step fresh reset init use).
@@ -137,7 +141,7 @@ Proof.
     destruct (ph i) eqn:Ep; try discriminate.
     destruct Hh as (p & Hp & Hlt & Hnin & _ & Hs); [discriminate|]. rewrite Hp.
     specialize (Hs eq_refl). rewrite (I_glob _ _ _ H).
-    destruct (use_sim _ _ _ _ _ _ laws g0 f _ _ Hs) as [Hs' Hr].
+    destruct (L_use g0 f _ _ Hs) as [Hs' Hr].
     destruct (use g0 f (heap g p)) as [o1 r1]. destruct (use g0 f (ro i)) as [o2 r2]. simpl in Hs', Hr. subst r2.
     rewrite <- (I_glob _ _ _ H).
     exists (upd ph i PInit), (upd ro i o2). apply inv_update; auto; try apply H.
@@ -194,13 +198,15 @@ Qed.
 Lemma start_inv progs pool0 g0 :
   Forall clean pool0 -> Forall (fun p => well_bracketed p = true) progs ->
   Forall (fun p => no_set_threshold p = true) progs ->
-  Inv _ _ _ _ _ fresh clean sim g0 (fun i => ref_run g0 (nth i progs [])) (start fresh progs pool0 g0) (fun _ => PIdle) (fun _ => fresh).
+  Inv _ _ _ _ _ fresh init use clean sim g0 (fun i => ref_run g0 (nth i progs [])) (start fresh progs pool0 g0) (fun _ => PIdle) (fun _ => fresh).
 Proof.
-  intros Hc Hwb Hns. constructor; simpl; auto.
+  intros Hc Hwb Hns. constructor; simpl.
+  - reflexivity.
   - intros i. apply (nth_forall_bool well_bracketed); auto.
   - intros i. apply (nth_forall_bool no_set_threshold); auto.
-  - intros i Hx; congruence.
-  - intros; congruence.
+  - reflexivity.
+  - intros i Hx. exfalso; apply Hx; reflexivity.
+  - intros i j _ Hx. exfalso; apply Hx; reflexivity.
   - intros p Hp. apply in_seq in Hp. split; [lia|]. rewrite Forall_forall in Hc. apply Hc, nth_In. lia.
   - apply seq_NoDup.
 Qed.
@@ -217,7 +223,7 @@ Proof.
   rewrite forallb_forall in Hd. specialize (Hd t (proj2 (in_seq _ _ _) (conj (Nat.le_0_l _) Ht))).
   rewrite (nth_indep _ [] (out (ths g (length progs)))) by (rewrite map_length, seq_length; auto).
   rewrite (map_nth (fun i => out (ths g i))), seq_nth by auto. simpl.
-  eapply inv_done; eauto. destruct (todo (ths g t)); auto; discriminate.
+  apply (inv_done _ _ _ _ _ _ _ _ _ _ _ _ g ph ro t HI). destruct (todo (ths g t)); auto; discriminate.
 Qed.
 
 (* running alone executes every action *)
@@ -301,5 +307,5 @@ Lemma buf_laws : pool_laws buf_fresh buf_reset buf_init buf_use buf_clean buf_si
 Proof.
   constructor; try reflexivity.
   - intros [] o o' Hc Hc'. unfold buf_sim, buf_init, buf_clean in *. congruence.
-  - intros [] bs o o' H. unfold buf_sim, buf_use in *; simpl. rewrite H. auto.
+  - intros g bs o o' H. unfold buf_sim, buf_use in *; simpl. rewrite H. auto.
 Qed.
